@@ -27,8 +27,9 @@ Checks(r) ==
        \cup (IF pre = want THEN {} ELSE {"Delivered"})
        \* whole groups: process arguments present exactly when the event has an EXECVE record, and they are its own
        \cup (IF \A i \in 1..Len(pre) : got[i].args = HasE(r.shapes[got[i].ev]) /\ got[i].argok THEN {} ELSE {"Grouping"})
-       \* after a failure the reassembler is closed and flushes what it still holds: nothing twice, nothing foreign
-       \cup (IF (\A i \in 1..Len(rest) : rest[i] \in pending \/ exp.ret = "write")
+       \* after a failure the parser may still take lines that were queued and Read's deferred Close() flushes
+       \* what the reassembler holds: events of the scenario, nothing twice, nothing foreign
+       \cup (IF (\A i \in 1..Len(rest) : rest[i] \in DOMAIN r.shapes)
                 /\ (\A i, j \in 1..Len(got) : i # j => got[i].ev # got[j].ev)
                 /\ (exp.ret = "none" => rest = <<>>)
              THEN {} ELSE {"Extra"})
